@@ -294,6 +294,10 @@ def h_refuse(sx, cfg):
     cases += [("curl-of-scalar", lambda: fs.curl), ("div-of-scalar-3d", lambda: fs.div)]
     f4 = df.Field(mesh3, nvdim=4, value=(1.0, 2.0, 3.0, 4.0))
     cases += [("div-nvdim-4-on-3d", lambda: f4.div), ("curl-nvdim-4", lambda: f4.curl)]
+    # more components than axes, every axis named by the mapping (one of them twice)
+    f3on2m = df.Field(mesh2, nvdim=3, value=(1.0, 2.0, 3.0), vdim_mapping={"x": "x", "y": "y", "z": "x"})
+    f4on3m = df.Field(mesh3, nvdim=4, value=(1.0, 2.0, 3.0, 4.0), vdims=["p", "q", "r", "t"], vdim_mapping={"p": "x", "q": "y", "r": "z", "t": "z"})
+    cases += [("div-3-on-2d-mapped-twice", lambda: f3on2m.div), ("div-4-on-3d-mapped-twice", lambda: f4on3m.div), ("curl-4-on-3d-mapped-twice", lambda: f4on3m.curl)]
     for name, call in cases:
         try:
             call()
@@ -311,6 +315,7 @@ def tasks(tier):
     sc = [((3,), "default"), ((3, 3), "renamed"), ((3, 3, 3), "default")] if q else [((3,), "default"), ((4,), "renamed"), ((3, 3), "renamed"), ((4, 3), "default"),
                                                                                   ((3, 3, 3), "default"), ((3, 4, 3), "renamed"), ((3, 3, 3, 3), "default")]
     big = dict(timeout_ms=60000, wall_budget=1500)
+    sc += [((3, 3), "shuffled"), ((3, 3, 3), "shuffled")]
     for n, dims in sc:
         t.append(dict(harness="h_poly_scalar", cfg=dict(n=list(n), dims=dims), limits=big))
     for n in ([(3, 3), (3, 3, 3)] if q else [(3, 3), (4, 3), (3, 3, 3), (3, 3, 4), (3, 3, 3, 3)]):
@@ -329,6 +334,7 @@ def tasks(tier):
     t.append(dict(harness="h_poly_vector", cfg=dict(n=[3], nvdim=1, what="div", perm=[0], labels="custom"), limits=big))
     ident = [((3, 3, 3), [], "default"), ((3, 3, 3), [0], "renamed")] if q else [((3, 3, 3), [], "default"), ((3, 3, 3), [0], "renamed"), ((4, 3, 3), [], "default"),
                                                                                  ((3, 4, 3), [1, 2], "default"), ((4, 4, 3), [0, 1, 2], "renamed")]
+    ident.append(((3, 3, 3), [], "shuffled"))
     for n, per, dims in ident:
         t.append(dict(harness="h_identity", cfg=dict(n=list(n), what="curlgrad", periodic=per, dims=dims), limits=big))
         for perm in ([(0, 1, 2), (1, 2, 0)] if q else list(itertools.permutations(range(3)))):
